@@ -537,8 +537,49 @@ def job_repetition(module, what_index):
     return acc
 
 
+@worker
+def job_dialects(module, names):
+    """A document with every construct in every dialect, as the default dialect and behind a language header, with the k-th keyword of every
+    role for every k (title keywords; step keywords are the first non-'*' ones unless the model names them)."""
+    import importlib
+    mod = importlib.import_module(module)
+    acc = Acc()
+    s = M.step
+    last = None
+    for d in names:
+        spec = M.DIALECTS[d]
+        kmax = max(len(spec[r]) for r in ('feature', 'rule', 'background', 'scenario', 'scenarioOutline', 'examples'))
+        allsteps = [k for r in ('given', 'when', 'then', 'and', 'but') for k in spec[r]]
+
+        def safe(role):
+            # a step keyword no other step keyword of the dialect is a proper prefix of (ht: 'Lè ' / 'Lè sa a '): the property C05 owns that rule
+            ok = [k for k in spec[role] if k != '* ' and not any(o != k and k.startswith(o) for o in allsteps)]
+            return ok[0] if ok else next(k for k in allsteps if k != '* ' and not any(o != k and k.startswith(o) for o in allsteps))
+        for ki in range(kmax):
+            for header in (False, True):
+                f = M.feature('f', [M.background('b', [s('x', kw=safe('given'))]),
+                                    M.rule('r', [M.background('', [s('y', kw=safe('and'))]), M.scenario('s', [s('z', kw=safe('when'))], tags=[M.tagline(['@t'])], desc=[T('    words')]),
+                                                 M.scenario('o <a>', [s('w <a>', kw=safe('then'))], [M.examples('e', [['a'], ['1']], tags=[M.tagline(['@e'])])], outline=True)], tags=[M.tagline(['@r'])])],
+                              language=d if header else None, header=[('language', '# language: ' + d)] if header else [])
+                try:
+                    text, exp, r = M.render(f, M.Layout(dialect=d, kw_index=ki))
+                except (StopIteration, KeyError, IndexError):
+                    acc.counters['variants_not_renderable'] += 1
+                    continue
+                if not M.roles_ok(r):
+                    acc.counters['models_discarded_role_mismatch'] += 1
+                    continue
+                mod.check_model(text, exp, r, acc, {'kind': 'text', 'text': text, 'family': 'dialects', 'dialect': d, 'default': None if header else d})
+                last = text
+    if last is not None:
+        acc.sample({'family': 'dialects', 'text': last[:400]})
+    return acc
+
+
 def run_families(ctx, module, n_quick, n_thorough, k2_bases_quick):
     ctx.level('one construct repeated 1..12 times', [job_repetition.job(module, i) for i in range(len(REPEATABLE))])
+    names = sorted(M.DIALECTS)
+    ctx.level('every construct in every dialect x k-th keyword of every role', [job_dialects.job(module, names[i:i + 5]) for i in range(0, len(names), 5)])
     ns = 16
     N = ctx.pick(n_quick, n_thorough)
     ctx.level('structure N<=%d' % N, [job_structure.job(module, N, s, 192) for s in range(192)])
